@@ -153,6 +153,13 @@ def body_rewrites(src, lo, hi, edits, subst, stats, opts):
         bare = (t.kind == "ident" and t.text in ("debug_assert", "debug_assert_eq", "debug_assert_ne", "assert", "assert_eq",
                                                   "assert_ne", "unreachable", "panic", "todo", "unimplemented")
                 and i + 1 < hi and toks[i + 1].text == "!" and (i == lo or toks[i - 1].text != ":"))
+        # ---- R17: `unsafe { .. }` block -> plain block (Verus has no unsafe blocks); the safety condition of what is called
+        #      inside must then be carried as a `requires` by the callee's contract, i.e. it becomes a proof obligation
+        if t.kind == "ident" and t.text == "unsafe" and i + 1 < hi and toks[i + 1].text == "{":
+            edits.add(t.start, toks[i + 1].start, "", "R17", "unsafe block marker dropped (safety condition = callee precondition)")
+            stats["R17"] = stats.get("R17", 0) + 1
+            i += 1
+            continue
         if is_fmt or bare:
             mac = toks[i + 3].text if is_fmt else t.text
             op = i + 5 if is_fmt else i + 2
